@@ -264,7 +264,7 @@ async fn upstream_tcp(sh: Arc<Shared>, k: u64, addr: IpAddr) {
             let (mut rd, wr) = s.into_split();
             let wr = Arc::new(tokio::sync::Mutex::new(wr));
             // replies held back for reordering: released (newest first) by the next query on the connection or after 700 ms
-            let pending: Arc<tokio::sync::Mutex<Vec<Vec<u8>>>> = Arc::new(tokio::sync::Mutex::new(vec![]));
+            let pending: Arc<tokio::sync::Mutex<Vec<(Vec<u8>, Value)>>> = Arc::new(tokio::sync::Mutex::new(vec![]));
             loop {
                 let mut lb = [0u8; 2];
                 if rd.read_exact(&mut lb).await.is_err() {
@@ -328,15 +328,24 @@ async fn upstream_tcp(sh: Arc<Shared>, k: u64, addr: IpAddr) {
                     continue;
                 }
                 if kind == "hold" {
-                    pending.lock().await.push(framed);
+                    // what is held back is recorded in full when it is released: the follower needs to know what the upstream said
+                    let mut held_ev = abstract_reply(&m);
+                    held_ev["ev"] = json!("usend");
+                    held_ev["up"] = json!(k);
+                    held_ev["proto"] = json!("tcp");
+                    held_ev["tok"] = json!(tok);
+                    held_ev["kind"] = json!("ok");
+                    held_ev["reordered"] = json!(true);
+                    held_ev["len"] = json!(framed.len() - 2);
+                    pending.lock().await.push((framed, held_ev));
                     let (p2, w3, sh3) = (pending.clone(), wr.clone(), sh.clone());
                     tokio::spawn(async move {
                         tokio::time::sleep(std::time::Duration::from_millis(700)).await;
                         let mut held = p2.lock().await;
                         let mut w = w3.lock().await;
-                        for p in held.drain(..).rev() {
+                        for (p, ev) in held.drain(..).rev() {
                             let _ = w.write_all(&p).await;
-                            sh3.emit(json!({"ev":"usend","up":k,"proto":"tcp","tok":"(held)","kind":"reordered","len":p.len()}));
+                            sh3.emit(ev);
                         }
                     });
                     continue;
@@ -352,9 +361,9 @@ async fn upstream_tcp(sh: Arc<Shared>, k: u64, addr: IpAddr) {
                 e["len"] = json!(bytes.len());
                 sh.emit(e);
                 let mut held = pending.lock().await;
-                for p in held.drain(..).rev() {
+                for (p, ev) in held.drain(..).rev() {
                     let _ = w2.write_all(&p).await;
-                    sh.emit(json!({"ev":"usend","up":k,"proto":"tcp","tok":"(held)","kind":"reordered","len":p.len()}));
+                    sh.emit(ev);
                 }
             }
         });
@@ -830,29 +839,40 @@ fn flood(args: &[String]) {
         let short: dnswire::Name = vec![b"q".to_vec(), b"example".to_vec()];
         for b in 0..bursts {
             let src: IpAddr = format!("127.0.40.{}", 1 + b).parse().unwrap();
-            let sock = Arc::new(tokio::net::UdpSocket::bind(SocketAddr::new(src, 0)).await.expect("bind"));
+            // even bursts: one socket (one source port); odd bursts: the same address from 200 source ports
+            let nsock = if b % 2 == 0 { 1 } else { 200 };
             let t0 = std::time::Instant::now();
-            let rsock = sock.clone();
-            let recv = tokio::spawn(async move {
-                let mut got: Vec<(u64, usize, u16)> = vec![];
-                let mut buf = vec![0u8; 65536];
-                loop {
-                    match tokio::time::timeout(std::time::Duration::from_millis(1500), rsock.recv_from(&mut buf)).await {
-                        Ok(Ok((len, _))) => got.push((t0.elapsed().as_millis() as u64, len, if len >= 4 { (buf[3] & 15) as u16 } else { 99 })),
-                        _ => break,
+            let mut socks = vec![];
+            let mut recvs = vec![];
+            for _ in 0..nsock {
+                let sock = Arc::new(tokio::net::UdpSocket::bind(SocketAddr::new(src, 0)).await.expect("bind"));
+                let rsock = sock.clone();
+                recvs.push(tokio::spawn(async move {
+                    let mut got: Vec<(u64, usize, u16)> = vec![];
+                    let mut buf = vec![0u8; 65536];
+                    loop {
+                        match tokio::time::timeout(std::time::Duration::from_millis(1500), rsock.recv_from(&mut buf)).await {
+                            Ok(Ok((len, _))) => got.push((t0.elapsed().as_millis() as u64, len, if len >= 4 { (buf[3] & 15) as u16 } else { 99 })),
+                            _ => break,
+                        }
                     }
-                }
-                got
-            });
+                    got
+                }));
+                socks.push(sock);
+            }
             for i in 0..n {
                 let q = build_query(i as u16, true, false, false, &long, 1, 1, Some((1232, false, vec![])));
-                let _ = sock.send_to(&q, dst).await;
+                let _ = socks[i % nsock].send_to(&q, dst).await;
                 if i % 20 == 19 {
-                    tokio::time::sleep(std::time::Duration::from_millis(if b == 0 { 1 } else { 25 })).await;
+                    tokio::time::sleep(std::time::Duration::from_millis(if b == 0 { 1 } else { 10 })).await;
                 }
             }
-            let got = recv.await.unwrap_or_default();
-            out.emit(json!({"ev":"reset","source":src.to_string(),"sent":n}));
+            let mut got: Vec<(u64, usize, u16)> = vec![];
+            for r in recvs {
+                got.extend(r.await.unwrap_or_default());
+            }
+            got.sort();
+            out.emit(json!({"ev":"reset","source":src.to_string(),"sent":n,"source_ports":nsock}));
             for (ms, len, rcode) in &got {
                 out.emit(json!({"ev":"req","t":ms / 1000,"ms":ms,"cost":len,"pass":true,"outcome":"ok","deplete":"ok","rcode":rcode,"e2e":true}));
             }
